@@ -168,6 +168,33 @@ def run_setting(cfg, sid, transport, full, seed):
         elif not (refdec.same(b, v) or b == v):
             cls = 'resolution' if t in ('Decimal', 'Voltage', 'Current', 'CurrentS') else 'value'
             vio.append((f'reads-back/{t}/{cls}', f'{sid}: wrote {vs}, read back {b!r}', vs))
+    # repeated writes: the same value again after the registers were changed behind the library's back (device side)
+    # and after an overlapping setting was written through the library - every write_setting() must reach the inverter
+    others = [o for o in inv.settings() if o is not s and in_scope(cfg, o) and
+              o.offset < s.offset + nregs and s.offset < o.offset + max(1, (refdec.size_of(o) + 1) // 2)]
+    for v, _ in combos[:3]:
+        vs = v.hex() if isinstance(v, bytes) else str(v)
+        for how in ['device-side'] + [f'via:{o.id_}' for o in others[:2]]:
+            r.call(inv.write_setting, sid, v)
+            if how == 'device-side':
+                cur = dev.rf.getbytes(s.offset, nregs)
+                dev.rf.setbytes(s.offset, bytes(b ^ 0x5A for b in cur))
+            else:
+                o = [x for x in others if x.id_ == how[4:]][0]
+                ov = domain(o, False)
+                r.call(inv.write_setting, o.id_, ov[len(ov) // 2])
+            prior_bytes = dev.rf.getbytes(s.offset, nregs)
+            want = refdec.encode(s, v, prior_bytes)
+            w0 = len(dev.writes)
+            res = r.call(inv.write_setting, sid, v)
+            n += 1
+            if res[0] != 'ok':
+                continue
+            if len(dev.writes) - w0 != 1:
+                vio.append((f'exactly-one-write/{t}/repeated-value', f'{sid}={vs} written again after the registers changed '
+                                                                     f'({how}): {len(dev.writes) - w0} write requests', vs))
+            elif dev.rf.getbytes(s.offset, nregs) != want:
+                vio.append((f'carries-the-encoding/{t}/repeated-value', f'{sid}={vs} ({how}): registers {dev.rf.getbytes(s.offset, nregs).hex()}', vs))
     if dev.bad:
         vio.append(('requests-parse', f'{sid}: {dev.bad[0][1]} {dev.bad[0][0].hex()}', None))
     return n, vio, len(encs)
